@@ -515,7 +515,28 @@ fn check_arch(db: &LayoutDb, x: &Arch, idx: usize, seed: u64, sink: &Sink) {
 		bytes.truncate(at);
 	}
 	// (every other archive arrives in short reads)
-	let res = if idx % 2 == 0 { real::read_slpp(&bytes, false) } else { real::read_slpp_frag(&bytes, false, crate::stream::Frag::Random(idx as u64)) };
+	let res = if intact {
+		if idx % 2 == 0 {
+			real::read_slpp(&bytes, false)
+		} else {
+			real::read_slpp_frag(&bytes, false, crate::stream::Frag::Random(idx as u64))
+		}
+	} else {
+		// a reader may also wait forever at a cut: run under a deadline
+		let b2 = bytes.clone();
+		let mut dog = crate::streamchk::Watchdog::new();
+		let deadline = std::time::Duration::from_secs(20);
+		match dog.run(deadline, move || {
+			if idx % 2 == 0 {
+				real::read_slpp(&b2, false)
+			} else {
+				real::read_slpp_frag(&b2, false, crate::stream::Frag::Random(idx as u64))
+			}
+		}) {
+			Some(r) => r,
+			None => return report("cut_hang", "hang", format!("reading the archive cut at {} {} did not return within {:?}", x.cut_entry, x.cut_part, deadline)),
+		}
+	};
 	match (&res, x.outcome.as_str()) {
 		(Outcome::Ok(g3), "ok") => match real::write_slp(g3) {
 			Outcome::Ok(w) => {
